@@ -145,6 +145,9 @@ std::vector<TecmpPayloadPtr> TECMP::Decoder::GetInterfacePayload(const uint8_t* 
 }
 TecmpPayloadPtr TECMP::Decoder::GetCanPayload(const uint8_t* payloadData, const std::size_t size)
 {
+    if (!CanPayload::isValidPayload(payloadData, size))
+        return {};
+
     CanPayload payload(payloadData, size);
     if (payload.isValid())
         return std::make_shared<Payload>(payload);
